@@ -142,6 +142,27 @@ theorem accepted_side_margin_in_range (p : Gen.Params.RoughLegalizationParameter
   simp only [Bool.not_eq_true', Bool.or_eq_false_iff, decide_eq_false_iff_not, Rat.not_lt, gt_iff_lt] at hm
   exact hm
 
+/-- The hypotheses of the control-loop theorems below that restrict *parameters* (`nbInitialSteps < maxNbSteps` in
+`zero_wirelength_exits_first_step`; a positive update distance and a back-off of at least 1 in the penalty schedule) are
+what the translated `GlobalPlacerParameters::check()` enforces. -/
+theorem accepted_global_step_counts (p : Gen.Params.GlobalPlacerParameters) (h : p.check = true) :
+    0 ≤ p.nbInitialSteps ∧ p.nbInitialSteps < p.maxNbSteps ∧ 1 ≤ p.nbStepsBeforeRoughLegalization ∧
+    0 < p.penaltyUpdateDistance ∧ 1 ≤ p.penaltyUpdateBackoff := by
+  unfold Gen.Params.GlobalPlacerParameters.check ApiIR.checkPasses at h
+  have hall := List.all_eq_true.mp h
+  have h1 := hall ((decide ((p.nbInitialSteps : Rat) < (0 : Rat))), "Invalid number of initial steps")
+    (by simp [Gen.Params.GlobalPlacerParameters.checkItems])
+  have h2 := hall ((decide ((p.nbInitialSteps : Rat) ≥ (p.maxNbSteps : Rat))), "Number of initial steps should be lower than max number")
+    (by simp [Gen.Params.GlobalPlacerParameters.checkItems])
+  have h3 := hall ((decide ((p.nbStepsBeforeRoughLegalization : Rat) < (1 : Rat))), "Number of steps per legalization should be positive")
+    (by simp [Gen.Params.GlobalPlacerParameters.checkItems])
+  have h4 := hall ((decide (p.penaltyUpdateDistance ≤ (0 : Rat))), "Invalid penalty update distance (should be positive)")
+    (by simp [Gen.Params.GlobalPlacerParameters.checkItems])
+  have h5 := hall ((decide (p.penaltyUpdateBackoff < (1 : Rat))), "Invalid penalty update backoff (should be at least 1)")
+    (by simp [Gen.Params.GlobalPlacerParameters.checkItems])
+  simp only [Bool.not_eq_true', decide_eq_false_iff_not, Rat.not_lt, Rat.not_le, ge_iff_le] at h1 h2 h3 h4 h5
+  refine ⟨by exact_mod_cast h1, by exact_mod_cast h2, by exact_mod_cast h3, h4, h5⟩
+
 /-- … hence the margin `fromIspdCircuit` computes from an accepted parameter set is non-negative, whatever the smallest
 cell height (positive, or `INT_MAX` when no cell has a positive height). -/
 theorem accepted_margin_nonneg (rnd : Rat → Rat) (hr : ∀ q, 0 ≤ q → 0 ≤ rnd q)
